@@ -264,8 +264,39 @@ def async_monitor_chunk(seed, idx, n):
     return ex
 
 
+MULTI_CLASSES = ('Machine', 'LockedMachine', 'GraphMachine', 'HierarchicalMachine', 'LockedHierarchicalMachine',
+                 'HierarchicalGraphMachine')
+
+
+def multi_remove_failures(case):
+    """queued machine, several models: a callback queues events for the other models and then removes SEVERAL of them
+    in ONE remove_model([...]) call (any order) — 'removing a model discards exactly that model's pending events and
+    leaves every other event, including the one in progress, to be processed exactly once' (scenario shared with C10)"""
+    from . import c10
+    res = c10.queued_remove_case(case['cls'], random.Random(case['sub']))
+    return [Failure('monitor', w, case, d, signature='C05.multi-remove') for w, d, _sig in res]
+
+
+def multi_remove_chunk(seed, idx, n):
+    rng = random.Random('C05/multi-remove/%d/%d' % (seed, idx))
+    ex = Exploration()
+    for _ in range(n):
+        case = {'stream': 'multi-remove', 'cls': rng.choice(MULTI_CLASSES), 'sub': rng.randrange(1 << 30)}
+        ex.evaluations += 1
+        ex.traces_validated += 1
+        ex.nontrivial.add('multi-remove/%s/%d' % (case['cls'], case['sub']))
+        h = ex.stats.setdefault('multi_remove_class', {})
+        h[case['cls']] = h.get(case['cls'], 0) + 1
+        ex.failures += multi_remove_failures(case)
+        if ex.failures:
+            break
+    return ex
+
+
 def any_chunk(kind, *args):
-    """one worker entry point for the three kinds of streams"""
+    """one worker entry point for the kinds of streams"""
+    if kind == 'multi-remove':
+        return multi_remove_chunk(*args)
     if kind == 'flat':
         return flatcheck.chunk(*args)
     if kind == 'nested':
@@ -341,6 +372,7 @@ class C05(flatcheck.FlatCheck):
             payloads += [('nested', seed, i, per, name) for i in range(nch)]
         nch, per = ASYNC_MONITOR['quick' if tier == 'quick' else 'thorough']
         payloads += [('async-monitor', seed, i, per) for i in range(nch)]
+        payloads += [('multi-remove', seed, i, 12 if tier == 'quick' else 120) for i in range(4)]
         ex = Exploration()
         for part in runner.parallel(any_chunk, payloads):
             ex.merge(part)
@@ -362,6 +394,8 @@ class C05(flatcheck.FlatCheck):
 
     @staticmethod
     def kind_of(case):
+        if case['stream'] == 'multi-remove':
+            return 'multi-remove'
         if case['stream'] in nested5.STREAMS:
             return 'nested'
         if case['stream'] == 'async-monitor':
@@ -370,6 +404,8 @@ class C05(flatcheck.FlatCheck):
 
     def steps_for(self, case):
         k = self.kind_of(case)
+        if k == 'multi-remove':
+            return lambda c: iter(())
         if k == 'nested':
             return nested5.shrink_steps
         if k == 'async-monitor':
@@ -381,6 +417,8 @@ class C05(flatcheck.FlatCheck):
 
     def failures_of(self, case):
         k = self.kind_of(case)
+        if k == 'multi-remove':
+            return multi_remove_failures(case)
         if k == 'nested':
             return nested5.rejudge(case)[0]
         if k == 'async-monitor':
@@ -427,6 +465,11 @@ class C05(flatcheck.FlatCheck):
             return 1
         case = payload['case']
         k = self.kind_of(case)
+        if k == 'multi-remove':
+            fs = multi_remove_failures(case)
+            for f in fs:
+                print('FAIL', f.what, json.dumps(f.details, default=str)[:1200])
+            return 1 if fs else 0
         if k == 'flat':
             return flatcheck.FlatCheck.replay(self, path)
         if k == 'nested':
